@@ -66,6 +66,8 @@ type Exec struct {
 	// deterministic function of its arguments (results become uninterpreted
 	// functions of the arguments instead of fresh values).
 	PureFunc func(name string) bool
+	// NilInterfaceSafety enables the nil-interface-method-call obligation.
+	NilInterfaceSafety bool
 	// NilReceiverPanics reports whether calling this external method on a nil
 	// pointer receiver panics (a safety obligation is generated).
 	NilReceiverPanics func(fn *ssa.Function) bool
@@ -1588,6 +1590,13 @@ func (x *Exec) ghostAssign(s *State, env *Env, c *Clause) {
 		s.Ghost[lhs.Name] = rhs
 	case *astIndexExpr:
 		// m[k] = v   or m[k][j] = v
+		if rt, ok := rhs.(*Scalar); ok && strings.HasSuffix(rt.T.Sort, " Bool)") {
+			if cur, err := env.EvalValue(lhs); err == nil {
+				if ct, ok := cur.(*Scalar); ok {
+					x.cardUpdate(s, ct.T, rt.T)
+				}
+			}
+		}
 		nv := x.ghostStore(s, env, lhs, env.toTerm(rhs))
 		root := rootIdent(lhs)
 		s.Ghost[root] = S(nv)
@@ -1619,6 +1628,20 @@ func (x *Exec) ghostStore(s *State, env *Env, lhs *astIndexExpr, v *Term) *Term 
 // cardUpdate records the relation between card(old) and card(new) for a
 // single-element set update new = store(old, x, b).
 func (x *Exec) cardUpdate(s *State, old, nw *Term) {
+	if nw.Op == "ite" && len(nw.Args) == 3 {
+		// conditional update: card distributes over the ite
+		fname := "card." + sanitize(old.Sort)
+		x.Ctx.DeclareFunc(fname, []string{old.Sort}, SInt)
+		a, b := nw.Args[1], nw.Args[2]
+		s.Assume(Eq(App(fname, SInt, nw), Ite(nw.Args[0], App(fname, SInt, a), App(fname, SInt, b))))
+		if !Equal(a, old) {
+			x.cardUpdate(s, old, a)
+		}
+		if !Equal(b, old) {
+			x.cardUpdate(s, old, b)
+		}
+		return
+	}
 	if nw.Op != "store" || len(nw.Args) != 3 || !Equal(nw.Args[0], old) {
 		return
 	}
